@@ -195,6 +195,29 @@ pub fn jobs(ctx: &Ctx) -> Vec<Job> {
     jobs
 }
 
+/// The property names the two errors by what they SAY ("specified version too small", "data too big"). Only an
+/// unmistakable swap is judged (wording is the crate's business): the text printed for the version error talks about
+/// data being too big / large and not about anything being too small / low, or the other way round.
+fn error_texts_swapped(out: &Outcome) -> bool {
+    let (d, g) = match adapter::last_error_text() {
+        Some(t) => t,
+        None => return false,
+    };
+    let looks_big = |t: &str| {
+        let t = t.to_lowercase();
+        (t.contains("too big") || t.contains("too large")) && !(t.contains("too low") || t.contains("too small"))
+    };
+    let looks_small = |t: &str| {
+        let t = t.to_lowercase();
+        (t.contains("too low") || t.contains("too small")) && !(t.contains("too big") || t.contains("too large"))
+    };
+    match out {
+        Outcome::VersionTooSmall => looks_big(&d) || looks_big(&g),
+        Outcome::TooBig => looks_small(&d) || looks_small(&g),
+        _ => false,
+    }
+}
+
 pub fn observe(ctx: &Ctx, st: &mut Stats, job: &Job, idx: usize) {
     let cfg = job.config();
     st.eval();
@@ -208,6 +231,10 @@ pub fn observe(ctx: &Ctx, st: &mut Stats, job: &Job, idx: usize) {
     let mode = cfg.mode.unwrap_or(job.class);
     st.reach("mode_level", (job.class * 4 + level) as u64);
     match (&want, &out) {
+        (Err("too-big"), Outcome::TooBig) | (Err("version-too-small"), Outcome::VersionTooSmall) if error_texts_swapped(&out) => {
+            let (d, g) = adapter::last_error_text().unwrap_or_default();
+            flag(st, ID, ("error-message-of-the-other-error".into(), format!("the right error variant came back ({}), but what it prints is the message of the OTHER error: Display {d:?}, Debug {g:?}", out.kind())), job, false);
+        }
         (Err("too-big"), Outcome::TooBig) => {
             st.count("too_big_errors_observed", 1);
             st.distinct(mix(0x70b1, (job.class * 4 + level) as u64 * 2_000_003 + cfg.input.len() as u64));
